@@ -155,7 +155,7 @@ func engineOpts(e int) []server.OpenFGAServiceV1Option {
 // env: one memory datastore behind the probe, one store + model, and one server per
 // (engine, result limit) on the same datastore. Writes go through srv[0][0].
 type env struct {
-	*e2.Env                       // writer (classic engine, no limit)
+	*e2.Env                                  // writer (classic engine, no limit)
 	srv     map[int][nEngines]*server.Server // limit (0 = none) -> engine -> server
 	// noWeightedGraph: the typesystem built no weighted graph for the model, so the server documents a
 	// fallback to the classic engine (used only to interpret the engine markers, never by the oracle).
